@@ -722,7 +722,7 @@ func drive(d *mon.Driver, replay string) int {
 				sub = hs[:len(hs)/8]
 			}
 			var every []history
-			step := d.N(4, 1)
+			step := d.N(6, 1)
 			for i := 0; i < len(sub); i += step {
 				every = append(every, sub[i])
 			}
